@@ -248,7 +248,10 @@ Section Decode.
                   (N.of_nat (off + length (enc et x off le ++
                      arr_body et le l (off + length (enc et x off le)))))) as [_|X];
         [|rewrite app_length in X; lia].
-      rewrite Hp. cbn [bind]. rewrite Hone. cbn [bind]. rewrite Hoff.
+      rewrite Hp. cbn [bind]. rewrite Hone. cbn [bind].
+      destruct (N.eqb_spec (len (encb et x (off + length (padding (align et) off)) le)) 0) as [E0|_];
+        [unfold len in E0; lia|].
+      rewrite Hoff.
       apply win_sub in W.
       replace (off + length (enc et x off le ++ arr_body et le l (off + length (enc et x off le))))%nat
         with (off + length (enc et x off le) + length (arr_body et le l (off + length (enc et x off le))))%nat
